@@ -344,9 +344,6 @@ class Chain:
         return " | ".join([self.head, *self.filters])
 
 
-Part = "str | Chain"
-
-
 def _src(parts: list[Any]) -> str:
     return "".join(p if isinstance(p, str) else p.src() for p in parts)
 
@@ -646,8 +643,10 @@ class Gen:
                             "{{ ", self.rechain(v, cap), " }}"]
         if self.rng.random() < 0.4:
             w = f"e{i}"
-            parts += [f"{{% capture {w} %}}", f"{{{{ {v} }}}}", "{{ ", self.rechain(v, cap, 0, 2),
-                      " }}", "{% endcapture %}", "{{ ", self.rechain(w, cap, 0, 2), " }}"]
+            inner = self.rechain(v, cap, 0, 2)
+            cap2 = Chain(w, [], cap.br or inner.br, "str")
+            parts += [f"{{% capture {w} %}}", f"{{{{ {v} }}}}", "{{ ", inner,
+                      " }}", "{% endcapture %}", "{{ ", self.rechain(w, cap2, 0, 2), " }}"]
         return Stmt("capture", parts)
 
     def _partial(self, c1: Chain) -> list[Any]:
@@ -773,11 +772,12 @@ class Gen:
         c0 = self.chain(lo=0, hi=3)
         sup = Chain("block.super", [], c0.br, "str")
         c1 = self.chain(lo=0, hi=2)
-        sup2 = Chain("block.super", [], c0.br or c1.br, "str")
+        r1 = self.rechain("block.super", sup, 0, 3)
+        sup2 = Chain("block.super", [], c0.br or c1.br or r1.br, "str")
         partials = {
             n0: ["[{% block k %}", self.txt(), "{{ ", c0, " }}", "{% endblock %}]"],
             n1: [f"{{% extends '{n0}' %}}{{% block k %}}(", "{{ block.super }}", "{{ ",
-                 self.rechain("block.super", sup, 0, 3), " }}", "{{ ", c1, " }}",
+                 r1, " }}", "{{ ", c1, " }}",
                  "){% endblock %}"],
             n2: [f"{{% extends '{n1}' %}}{{% block k %}}", "{{ ",
                  self.rechain("block.super", sup2, 0, 2), " }}", "{{ block.super }}",
